@@ -122,9 +122,9 @@ Qed.
    dropped one with dropout).  Hypothesis fst dpair = None: io_axis_indices finds no
    input axis of the slice for the dropped output - otherwise drop_io_dim would also
    remove a data axis and nipy's Image constructor refuses the element. *)
-Theorem image_list_item_tracks_lemma img in_ax out_ax dropout k dpair r :
+Theorem image_list_item_tracks_lemma img in_ax out_ax dropout k dpair tinyz r :
   wf_image img -> fst dpair = None ->
-  image_list_item img in_ax out_ax dropout k dpair = IOk r ->
+  image_list_item img in_ax out_ax dropout k dpair tinyz = IOk r ->
   wf_image r /\ exists phi, tracks_sub r img phi (fun s => s).
 Proof.
   intros Hw Hp H. unfold image_list_item in H.
@@ -132,7 +132,7 @@ Proof.
   destruct (iter_axis_item img (AInt (Z.of_nat a)) [] k) as [it|e] eqn:Hit; [|discriminate].
   destruct (iter_axis_item_good _ _ _ _ _ Hw Hit) as [Hwi [phi T]].
   destruct (if dropout then out_ax else None) as [o0|].
-  - destruct (lift (drop_out_dim (icmap it) dpair)) as [cm'|e] eqn:Hd; [|discriminate].
+  - destruct (lift (drop_out_dim (icmap it) dpair tinyz)) as [cm'|e] eqn:Hd; [|discriminate].
     apply lift_ok in Hd. unfold drop_out_dim in Hd. destruct dpair as [pi po]. cbn [fst snd] in *. subst pi.
     destruct po as [o|].
     + destruct (Nat.ltb o (cs_ndim (arng (icmap it)))) eqn:Ho; [|discriminate]. apply Nat.ltb_lt in Ho.
